@@ -160,6 +160,38 @@ def discipline(text_in, out, over, toks_out, nodes_out):
             bad.append(("auto_on_crlf", "newline_style=Auto: input's first terminator is CRLF but the emitted text uses LF"))
         if not first_crlf and i >= 0 and has_crlf:
             bad.append(("auto_on_lf", "newline_style=Auto: input's first terminator is LF but the emitted text contains CRLF"))
+    # indentation: outside literals, comments, skipped code and macro calls (bodies may be copied verbatim) the leading
+    # white space of a line is spaces only (hard_tabs off) or tabs followed by spaces only (hard_tabs on)
+    if "rustfmt::skip" not in out and "rustfmt_skip" not in out:
+        ht = d.get("hard_tabs", "false") == "true"
+        pos = 0
+        depth_macro = []          # stack of closing delimiters of macro-call token trees we are inside
+        pending_bang = 0          # > 0: a `!` was just seen (optionally followed by an identifier): next delimiter opens a macro
+        closer = {"(": ")", "[": "]", "{": "}"}
+        nest = []
+        for k, t in toks_out:
+            if k == "ws":
+                if "\n" in t and not depth_macro:
+                    lead = t.rsplit("\n", 1)[1]
+                    okay = (lead.lstrip("\t").strip(" ") == "") if ht else ("\t" not in lead)
+                    if not okay and pos + len(t) < len(out):
+                        ln = out.count("\n", 0, pos + len(t)) + 1
+                        bad.append(("indent_chars", "line %d is indented with %r under hard_tabs=%s" % (ln, lead, d.get("hard_tabs", "false"))))
+                        break
+            elif k in ("lc", "bc", "dlo", "dli", "dbo", "dbi"):
+                pass
+            elif k == "p" and t == "!":
+                pending_bang = 2
+                pos += len(t)
+                continue
+            elif k == "p" and t in closer:
+                if pending_bang or depth_macro:
+                    depth_macro.append(closer[t])
+            elif k == "p" and depth_macro and t == depth_macro[-1]:
+                depth_macro.pop()
+            if k not in ("ws", "lc", "bc"):
+                pending_bang = pending_bang - 1 if (pending_bang and k in ("id", "rid")) else 0
+            pos += len(t)
     upper = int(d.get("blank_lines_upper_bound", "1"))
     # blank-line runs: between two consecutive items / statements at most `upper`, anywhere else at most
     # max(upper, 1) ("never more than one inside a field, variant, arm or argument list")
@@ -233,13 +265,13 @@ def e2e(rep, tier, seed):
             continue
         n += 1
         for key, what in discipline(c["text"], r["out"], c["config"], r["out_tokens"], r.get("out_nodes")):
-            k = "%s:%s" % (key, pid) if key in ("blank_run_items", "blank_run_list", "final_newline", "leading_blank") else key
+            k = "%s:%s" % (key, pid) if key in ("blank_run_items", "blank_run_list", "final_newline", "leading_blank", "indent_chars") else key
             if rep.violation(k, {"pool_id": pid, "layout": lay, "config": c["config"], "input": c["text"], "out": r["out"]},
                              "%s (%s, layout %s, %s)" % (what, pid, lay, GRID[gi])):
                 found += 1
     rep.coverage["e2e_programs_judged"] = n
     found += file_matrix(rep, tier, seed)
-    rep.coverage["e2e_rule"] = "pool x layouts %s x %d configurations (newline_style x blank-line bounds x hard_tabs/tab_spaces); thorough = all, quick = the 1/%d slice selected by the seed; clauses: one final terminator, no leading blank line, terminators follow newline_style, blank-line runs <= upper bound" % (E2E_LAYOUTS, len(GRID), MOD)
+    rep.coverage["e2e_rule"] = "pool x layouts %s x %d configurations (newline_style x blank-line bounds x hard_tabs/tab_spaces); thorough = all, quick = the 1/%d slice selected by the seed; clauses: one final terminator, no leading blank line, terminators follow newline_style, blank-line runs <= upper bound, indentation characters follow hard_tabs outside literals / comments / macro calls / skipped code" % (E2E_LAYOUTS, len(GRID), MOD)
     return found
 
 
